@@ -7,9 +7,10 @@
    The model mirrors the order of the real checks: parse level (attributes in front of rules / macros /
    include_source!, empty lattice, include_source! inside ascent_source!)  <  macro expansion, rule by rule
    (undefined macro, argument count, depth guard 100)  <  rules against declarations, rule by rule and inside a rule
-   in the order clause identifiers, relation lookup, clause conditions / generators / let / aggregate patterns
-   (undeclared relation, arity against the LAST declaration of the name, rebinding; a variable repeated across
-   clauses is a join, never a rebinding)  <  program attributes (unknown < inter_rule_parallelism outside a parallel
+   in the order clause identifiers, relation lookup, clause conditions / generators / let / aggregate patterns,
+   relation of the aggregate, aggregated variables (undeclared relation, arity against the LAST declaration of the
+   name, rebinding — a variable repeated across clauses is a join, never a rebinding —, aggregated variable that is
+   not an argument of the aggregated relation)  <  program attributes (unknown < inter_rule_parallelism outside a parallel
    macro < several ds)  <  relation attributes per surviving declaration (several ds < ds on a lattice)
    <  stratification  <  code generation (can only panic).
    Stratification is modelled as reachability, not through SCCs: rule a aggregates rel and some rule reachable from a
@@ -54,7 +55,7 @@ Theorem c15_well_formed_accept_or_panic : forall c0 P k, well_formed c0 P k -> c
 Proof. exact well_formed_verdict. Qed.
 
 (* ... and the panic case is unreachable when the macro-expanded rules use no identifier ending in "_" / "_<number>"
-   as a clause argument and aggregate only variables that are arguments of the aggregated relation *)
+   as a clause argument *)
 Theorem c15_no_panic_guarded : forall c0 P k, panic_guard P -> check c0 P k <> Panics.
 Proof. exact no_panic_guarded_v. Qed.
 Theorem c15_well_formed_accepted : forall c0 P k, well_formed c0 P k -> panic_guard P -> check c0 P k = Accept.
@@ -64,6 +65,12 @@ Proof. exact well_formed_accepted. Qed.
    program on which the front end panics under all four macros — and is accepted once the counter has advanced *)
 Theorem c15_no_panic_refuted : exists c0 P, (forall k, well_formed c0 P k) /\ (forall k, check c0 P k = Panics).
 Proof. exact f9_refutes. Qed.
+(* the other unwrap of code generation (aggregated variable looked up among the arguments of the aggregated relation)
+   is never the reason of a panic: the rule stage rejects such an aggregate first (check added by commit 9b40028) *)
+Theorem c15_panic_is_a_clause_panic : forall c0 P k, check c0 P k = Panics ->
+  exists its xr r, flatten 0 (p_items P) = OK its /\ expand_rules (macros_of its) (rules_of its) = OK xr /\
+    In r (ds_rules c0 xr) /\ body_clause_panics (decls_of its) [] (c_body r) = true.
+Proof. exact panic_is_a_clause_panic_v. Qed.
 (* a panic is never a wrong rejection or acceptance of a listed violation: it happens only after every check passed *)
 Theorem c15_panic_only_after_all_checks : forall c0 P k, check c0 P k = Panics -> well_formed c0 P k.
 Proof. exact panics_only_when_checks_pass_v. Qed.
@@ -121,8 +128,10 @@ Example c15_recursive_occurs : occurs [] p_recursive KAscent (VMacro 0 ERecursiv
 Proof. exact p_recursive_occurs. Qed.
 Example c15_f9_accepted_later : check [(x, 1)] f9 KAscent = Accept.
 Proof. exact f9_later_accepted. Qed.
-Example c15_agg_unbound_panics : map (check [] agg_unbound) allk = [Panics; Panics; Panics; Panics].
-Proof. exact agg_unbound_panics. Qed.
+(* res(s) <-- agg s = sum(z) in r(x, _): rejected at the aggregate since commit 9b40028 (it used to panic) *)
+Example c15_agg_var_rejected : map (check [] agg_unbound) allk = [Reject (EAggVar z 0); Reject (EAggVar z 0); Reject (EAggVar z 0); Reject (EAggVar z 0)]
+  /\ occurs [] agg_unbound KAscent (VRule 0 2 (EAggVar z 0)).
+Proof. exact (conj agg_unbound_rejected agg_unbound_occurs). Qed.
 
 Print Assumptions c15_accept_sound. Print Assumptions c15_reject_complete. Print Assumptions c15_single_violation_class.
 Print Assumptions c15_reject_sound. Print Assumptions c15_well_formed_accept_or_panic. Print Assumptions c15_no_panic_guarded.
@@ -130,4 +139,4 @@ Print Assumptions c15_well_formed_accepted. Print Assumptions c15_no_panic_refut
 Print Assumptions c15_self_referential_macro. Print Assumptions c15_invoke_is_check. Print Assumptions c15_invoke_deferred.
 Print Assumptions c15_last_declaration_wins. Print Assumptions c15_relation_attributes_pass_through. Print Assumptions c15_reach_is_reachability.
 Print Assumptions c15_tc_accepted. Print Assumptions c15_verdicts. Print Assumptions c15_recursive_occurs.
-Print Assumptions c15_f9_accepted_later. Print Assumptions c15_agg_unbound_panics.
+Print Assumptions c15_f9_accepted_later. Print Assumptions c15_agg_var_rejected. Print Assumptions c15_panic_is_a_clause_panic.
